@@ -73,6 +73,9 @@ func (f Float64) ToString() String {
 func (f Float64) Hash() UInt64 {
 	d := xxhash.New()
 	b := make([]byte, 8)
+	if f == 0 {
+		f = 0 // canonicalise -0.0 to +0.0, since 0.0 == -0.0
+	}
 	binary.LittleEndian.PutUint64(b, math.Float64bits(float64(f)))
 	d.Write(b)
 	return UInt64(d.Sum64())
